@@ -46,7 +46,7 @@ def instances(tier):
                             uf=True, cover=["solved"], weight=20))
     from ..shapes import variants as _variants
     for sid, shape in _variants().items():
-        if ['by-rail/mux', 'hole/mux'] is not None and sid not in ['by-rail/mux', 'hole/mux']:
+        if sid not in ('by-rail/mux', 'hole/mux', 'reuse/mux-deep-input', 'reuse/mux-deep-input-2nd'):
             continue
         out.append(Instance("C05", "sys_common:s_run", dict(shape=shape, oracle="c05"), name="S/var/" + sid, uf=True, cover=["solved"], weight=20))
     if tier == "thorough":
